@@ -106,10 +106,10 @@ def _gen_doc(g, fmt, labels, quadfmt, gnames):
 
 def generate(seed, tier):
     g = Stream(seed, "gen")
-    sink = g.choice(["graph-memory", "graph-memory", "graph-simple", "dataset-F", "dataset-T", "cg", "view"])
+    sink = g.choice(["graph-memory", "graph-memory", "graph-simple", "dataset-F", "dataset-T", "cg", "view", "graph-auditable", "cg-auditable"])
     labels = ["b0", "b1", "x", GENLIKE]
     ncalls = g.randint(1, 5)
-    quadsink = sink in ("dataset-F", "dataset-T", "cg", "view")
+    quadsink = sink in ("dataset-F", "dataset-T", "cg", "view", "cg-auditable")
     gnames = [u("g1"), u("g2"), ["b", "b0"], ["b", "gx"]]
     init = []
     for _ in range(g.randint(0, 6)):
@@ -122,6 +122,9 @@ def generate(seed, tier):
     fault_call = g.randrange(ncalls) if g.random() < 0.35 else None
     for i in range(ncalls):
         fmts = (QUAD_FORMATS + TRIPLE_FORMATS) if quadsink else [f for f in TRIPLE_FORMATS if not (sink == "graph-simple" and f in ("hext", "json-ld", "n3"))]
+        if sink.endswith("auditable"):
+            # the auditable wrapper is neither graph-aware nor formula-aware: parsers that need such a store refuse it
+            fmts = [f for f in fmts if f not in ("n3", "hext", "nquads")]
         fmt = g.choice(fmts)
         quadfmt = fmt in writers.QUAD_FORMATS and quadsink and g.random() < 0.8
         lab = list(labels)
@@ -193,6 +196,15 @@ def make_sink(kind):
         return ds, ds, ("u", DEFAULT)
     if kind == "cg":
         cg = ConjunctiveGraph(Memory(), identifier=URIRef(EX + "cgdefault"))
+        return cg, cg, ("u", EX + "cgdefault")
+    if kind in ("graph-auditable", "cg-auditable"):
+        # a store with transactions: what the sink holds when parse() is called is uncommitted work
+        from rdflib.plugins.stores.auditable import AuditableStore
+
+        if kind == "graph-auditable":
+            g = Graph(AuditableStore(Memory()), URIRef(EX + "thegraph"))
+            return g, g, ("u", EX + "thegraph")
+        cg = ConjunctiveGraph(AuditableStore(Memory()), identifier=URIRef(EX + "cgdefault"))
         return cg, cg, ("u", EX + "cgdefault")
     if kind == "view":
         ds = Dataset(Memory())
@@ -312,7 +324,7 @@ def _execute(trace, ctx):
         fmt = call["format"]
         ctx.op(kind, f"parse-{fmt}")
         quads = [[resolve(x) for x in q] for q in call["quads"]]
-        if not (fmt in writers.QUAD_FORMATS and kind not in ("graph-memory", "graph-simple")):
+        if not (fmt in writers.QUAD_FORMATS and kind not in ("graph-memory", "graph-simple", "graph-auditable")):
             quads = [q[:3] + [None] for q in quads]
         import random as _random
 
